@@ -12,7 +12,13 @@ impl AppCounters {
     pub(crate) fn from_update_interval(update: i64) -> Self {
         AppCounters {
             df_count: BTreeMap::new(),
-            timestamp: chrono::Utc::now() + chrono::Duration::seconds(update),
+            timestamp: chrono::Duration::try_seconds(update)
+                .and_then(|d| chrono::Utc::now().checked_add_signed(d))
+                .unwrap_or(if update < 0 {
+                    DateTime::<Utc>::MIN_UTC
+                } else {
+                    DateTime::<Utc>::MAX_UTC
+                }),
             cleanup_count: 0u32,
         }
     }
